@@ -387,5 +387,6 @@ func extractC08() *lean {
 	}
 	strs("statisticsCountSource", stat)
 	c08CodecFacts(l)
+	c08PhaseFacts(l)
 	return l
 }
